@@ -23,9 +23,12 @@ def _fc(name, func, a, b, A, B):
                 ignore_calls=['self.optic.trace_generic'])
 
 
-def _dist(name, ty):
-    st = {"self.distortion_type == 'f-tan'": 'true' if ty == 'f-tan' else 'false',
-          "self.distortion_type == 'f-theta'": 'true' if ty == 'f-theta' else 'false'}
+def _dist(name, ty, height=False):
+    """Distortion._generate_data, one kernel per (field kind, distortion type): the type / field-kind tests are fixed at
+    translation time (the invalid-type ValueError is part of the hand model)"""
+    st = {"self.distortion_type not in ('f-tan', 'f-theta')": 'false',
+          "self.optic.field_type == 'object_height'": 'true' if height else 'false',
+          "self.distortion_type == 'f-tan'": 'true' if ty == 'f-tan' else 'false'}
     return dict(name=name, file=AN + 'distortion.py', cls='Distortion', func='_generate_data', kclass=AnKernel,
                 requires=_R, types={'self.wavelengths': L},
                 expr_inputs={f'{SG}y[-1, :]': ('yr', L), 'np.linspace(1e-10, 1, self.num_points)': ('Hy', L)},
@@ -48,9 +51,11 @@ MODULES = {
         _fc('fc_sagittal', '_intersection_parabasal_sagittal', 'x', 'z', 'L', 'N'),
         _dist('distortion_ftan', 'f-tan'),
         _dist('distortion_ftheta', 'f-theta'),
+        _dist('distortion_height', 'f-tan', height=True),
         dict(name='grid_distortion', file=AN + 'grid_distortion.py', cls='GridDistortion', func='_generate_data',
-             kclass=AnKernel, requires=_R, types={'self.distortion_type': 'str'},
-             expr_inputs={f'{SG}y[-1, 0]': ('y_ref', 'num'), f'{SG}x[-1, :]': ('xr', L), f'{SG}y[-1, :]': ('yr', L)},
+             kclass=AnKernel, requires=_R, types={'self.distortion_type': 'str', 'self.optic.field_type': 'str'},
+             expr_inputs={f'{SG}y[-1, 0]': ('y_ref0', 'num'), f'{SG}x[-1, 0]': ('x_ref0', 'num'),
+                          f'{SG}x[-1, :]': ('xr', L), f'{SG}y[-1, :]': ('yr', L)},
              free_inputs={'Hx': L, 'Hy': L}, skip_assign=['max_field', 'extent', '(Hx, Hy)'],
              ignore_calls=['self.optic.trace_generic'],
              outputs=['data.K__xr', 'data.K__yr', 'data.K__xp', 'data.K__yp', 'data.K__max_distortion']),
